@@ -96,12 +96,9 @@ func TestVerifH7(t *testing.T) {
 							}
 							wantUID := username
 							if rest {
+								// the user id is everything behind the timestamp's colon: two users whose names differ behind a
+								// second colon ("bob" and "bob:x") are two users, not one
 								wantUID = user
-								if user == "a:b:c" {
-									wantUID = "a"
-								} else if user == "bob:x" {
-									wantUID = "bob"
-								}
 							}
 							if uid != wantUID {
 								vt.Alarm("ltcred-userid", "%s uid=%q want %q", kind, uid, wantUID)
